@@ -176,6 +176,33 @@ pub open spec fn range_post(ast: ASTTy, state: State, ctx: Context, c: Core) -> 
     }
 }
 
+
+// ---- meaning of the range desugaring (C01 "exclusive/inclusive ranges with step"), positive steps --------------------
+/// elements of Python's range(a, b, s) for s > 0
+pub open spec fn rng_p(a: int, b: int, s: int) -> Seq<int>
+    decreases (if b - a > 0 { b - a } else { 0 }) when s > 0
+{
+    if a >= b { Seq::empty() } else { seq![a] + rng_p(a + s, b, s) }
+}
+/// elements of the Mamba range `a .. b .. s` (exclusive) / `a ..= b .. s` (inclusive) for s > 0
+pub open spec fn rng_m(a: int, b: int, inclusive: bool, s: int) -> Seq<int>
+    decreases (if b - a + 1 > 0 { b - a + 1 } else { 0 }) when s > 0
+{
+    if (inclusive && a > b) || (!inclusive && a >= b) { Seq::empty() } else { seq![a] + rng_m(a + s, b, inclusive, s) }
+}
+/// range_post's shape — range(from, to + 1 iff inclusive, step or 1) — denotes exactly the Mamba range
+pub proof fn lemma_range_desugaring_meaning(a: int, b: int, inclusive: bool, s: int)
+    requires s > 0,
+    ensures rng_p(a, if inclusive { b + 1 } else { b }, s) == rng_m(a, b, inclusive, s),
+    decreases (if b - a + 1 > 0 { b - a + 1 } else { 0 }),
+{
+    let hi = if inclusive { b + 1 } else { b };
+    if a >= hi {
+    } else {
+        lemma_range_desugaring_meaning(a + s, b, inclusive, s);
+    }
+}
+
 impl State {
 //@@ FN src/generate/convert/state.rs | impl State | new
     ensures !r.annotate, !r.is_last_must_be_ret, r.must_assign_to is None, r.expand_ty, !r.def_as_fun_arg, !r.interface, !r.tup_lit, !r.is_remove_last_ret,   //# default_state [C11]
